@@ -153,30 +153,22 @@ func assertProven(p *an.Prog, fn *ssa.Function, ta *ssa.TypeAssert) (string, boo
 	return "every return of the callee has that dynamic type", true
 second:
 	// (2) a key/value handed to a sync.Map.Range callback: every Store into that map field has the type
-	if fn.Parent() != nil {
-		for i, prm := range fn.Params {
+	{
+		for pi, prm := range fn.Params {
 			isOperand := false
 			for _, src := range an.Sources(ta.X) {
 				if src == ssa.Value(prm) {
 					isOperand = true
 				}
 			}
-			if !isOperand {
+			// the callback's (key, value) are its last two parameters (a method used as a value has its receiver first)
+			i := pi - (len(fn.Params) - 2)
+			if !isOperand || i < 0 || fn.Signature.Params().Len() != 2 {
 				continue
 			}
-			// find the Range call using this closure and the map it ranges over
-			par := fn.Parent()
-			var mapKey string
-			an.EachInstr(par, func(in ssa.Instruction) {
-				if call, ok := in.(*ssa.Call); ok && an.ShortCallee(&call.Call) == "(*sync.Map).Range" {
-					for _, src := range an.Sources(call.Call.Args[1]) {
-						if mc, ok := src.(*ssa.MakeClosure); ok && mc.Fn == fn {
-							mapKey = an.FieldKey(call.Call.Args[0])
-						}
-					}
-				}
-			})
-			if mapKey == "" {
+			// fn is only ever used as the callback of Range over one map field
+			mapKey, onlyRange := rangeCallbackOf(p, fn)
+			if mapKey == "" || !onlyRange {
 				continue
 			}
 			all := true
@@ -200,6 +192,60 @@ second:
 		}
 	}
 	return "", false
+}
+
+// rangeCallbackOf finds the sync.Map field whose Range is given fn (a
+// function literal, a declared function or a method value) as its callback;
+// onlyRange tells that fn has no other use in the module (no direct call, no
+// other escape), so that its parameters only ever hold entries of that map.
+func rangeCallbackOf(p *an.Prog, fn *ssa.Function) (mapKey string, onlyRange bool) {
+	denotes := func(v ssa.Value) bool {
+		switch x := v.(type) {
+		case *ssa.Function:
+			return x == fn
+		case *ssa.MakeClosure:
+			f, _ := x.Fn.(*ssa.Function)
+			return f == fn || p.Unwrap(f) == fn
+		}
+		return false
+	}
+	onlyRange = true
+	keys := map[string]bool{}
+	for _, g := range p.Funcs {
+		an.EachInstr(g, func(in ssa.Instruction) {
+			if mc, ok := in.(*ssa.MakeClosure); ok && denotes(mc) {
+				return
+			}
+			if call, ok := in.(*ssa.Call); ok && an.ShortCallee(&call.Call) == "(*sync.Map).Range" && len(call.Call.Args) == 2 {
+				for _, src := range an.Sources(call.Call.Args[1]) {
+					if denotes(src) {
+						keys[an.FieldKey(call.Call.Args[0])] = true
+					}
+				}
+				if denotes(call.Call.Args[1]) {
+					return
+				}
+			}
+			for _, op := range in.Operands(nil) {
+				if *op != nil && denotes(*op) {
+					// a store of the literal into the local the Range call reads is the same use
+					if st, ok := in.(*ssa.Store); ok {
+						if _, local := st.Addr.(*ssa.Alloc); local {
+							continue
+						}
+					}
+					onlyRange = false
+				}
+			}
+		})
+	}
+	if len(keys) != 1 {
+		return "", false
+	}
+	for k := range keys {
+		mapKey = k
+	}
+	return mapKey, onlyRange
 }
 
 // ---------------------------------------------------------------------------
